@@ -98,6 +98,12 @@ SHAPES = {
     "kw_field": ("r = record { default: i32; }", "documented:InvalidIdentifierException"),
     "kw_method": ("i = interface +cpp { new(); }", "documented:InvalidIdentifierException"),
     "kw_param": ("i = interface +cpp { m(class: i32); }", "documented:InvalidIdentifierException"),
+    "kw_two_roles": ("e = enum { delete; other; }\ni = interface +cpp { delete(id: i32); }", "documented:InvalidIdentifierException"),
+    "kw_two_roles_rev": ("i = interface +cpp { m(delete: i32); }\ne = enum { delete; }", "documented:InvalidIdentifierException"),
+    "kw_harmless_roles": ("e = enum { delete; new; class; }\ndelete = record { a: i32; }", None),
+    "kw_java_field": ("e = enum { native; }\nr = record { native: i32; }", "documented:InvalidIdentifierException"),
+    "cb_nested_generic_pair": ("foo = record { a: i32; }\nbar = record { b: i32; }\ni = interface +cpp { m(cb: (items: list<list<foo>>)); n(cb: (items: list<list<bar>>)); }", None),
+    "cb_generic_pair_depth1": ("foo = record { a: i32; }\nbar = record { b: i32; }\ni = interface +cpp { m(cb: (items: map<string, foo>)); n(cb: (items: map<string, bar>)); }", None),
     "date_bin": ("i = interface +cpp { m(d: date, b: binary) -> date; }", None),
     "gen_nested": ("i = interface +cpp { m(a: map<string, list<set<i32>>>) -> list<list<string>>; }", None),
     # ---- witnesses of known findings (see findings/C01.json) ----
